@@ -191,6 +191,13 @@ func c12TestCorpus() []any {
 	out = append(out, hist(c12Op("install", 1, eng.Flags{}, hooks, "a"), test([]string{"ht2"}, nil), test(nil, nil), c12Op("uninstall", 0, eng.Flags{}, nil)))
 	out = append(out, hist(c12Op("install", 1, eng.Flags{}, hooks, "a"), c12Op("uninstall", 0, eng.Flags{KeepHistory: true}, nil), test(nil, nil)))
 	out = append(out, hist(test(nil, nil)))
+	// K10 witness: the final Releases.Update of a filtered helm test fails (storage write #1; #0 is the record execHook
+	// writes, with the reduced hook list, before creating the test hook): the stored revision keeps only the selected hook
+	one := 1
+	k10 := []eng.Hook{hk("ht", 0, []string{"test"}), hk("hpre", 0, []string{"pre-delete"})}
+	tf := test([]string{"ht"}, nil)
+	tf.WFail = &one
+	out = append(out, hist(c12Op("install", 1, eng.Flags{}, k10, "a"), tf, c12Op("uninstall", 0, eng.Flags{}, nil)))
 	// raw annotation strings: test-success, zero-padded weights, same name under two kinds (the stored order changes:
 	// skipped hooks come first)
 	raw := []eng.Hook{rawHk("ht1", "test-success", "w", "02"), rawHk("ht2", " Test", "w", "010", "d", "hook-succeeded"),
